@@ -192,15 +192,15 @@ Proof.
 Qed.
 
 (* ------------------------------------------------------------------ C10_determined, same presentation of target.Env *)
-Lemma build_env_agree cfg t tmp c1 c2 :
-  agree c1 c2 (reads cfg t) -> build_env cfg t tmp c1 = build_env cfg t tmp c2.
+Lemma build_env_sb_agree sx cfg t tmp c1 c2 :
+  agree c1 c2 (reads cfg t) -> build_env_sb sx cfg t tmp c1 = build_env_sb sx cfg t tmp c2.
 Proof.
   intros H; unfold reads in H.
   assert (Ht : agree c1 c2 (c_pass_unsafe cfg ++ c_pass_env cfg ++ opt_list (t_pass_unsafe t) ++ opt_list (t_pass_env t))).
   { intros n Hn; apply H. rewrite !app_assoc in *. apply in_or_app; left; exact Hn. }
   assert (Hc : agree c1 c2 (code_reads cfg t)).
   { intros n Hn; apply H. do 4 (apply in_or_app; right). exact Hn. }
-  unfold build_env. rewrite (target_env_agree _ _ _ _ Ht).
+  unfold build_env_sb. rewrite (target_env_agree _ _ _ _ Ht).
   assert (Hs : secrets_value c1 (t_secrets t) = secrets_value c2 (t_secrets t)).
   { apply (secrets_value_agree cfg t); [exact Hc|]. unfold has_tilde_secrets; intros E.
     apply orb_false_iff in E as [E _]; exact E. }
@@ -213,6 +213,10 @@ Proof.
     exact (existsb_false_in _ _ kv E Hkv). }
   rewrite Hn. revert Hs. destruct (t_secrets t) as [|s0 l0]; intros Hs; [reflexivity|]. now rewrite Hs.
 Qed.
+
+Lemma build_env_agree cfg t tmp c1 c2 :
+  agree c1 c2 (reads cfg t) -> build_env cfg t tmp c1 = build_env cfg t tmp c2.
+Proof. exact (build_env_sb_agree no_sbx cfg t tmp c1 c2). Qed.
 
 (* ------------------------------------------------------------------ target.Env is a map: its presentation order is irrelevant *)
 Definition key_le (x y : str * str) : Prop := str_leb (fst x) (fst y) = true.
@@ -289,28 +293,37 @@ Proof.
   - rewrite <- (sort_env_perm e1), <- (sort_env_perm e2). exact Hp.
 Qed.
 
-Lemma build_env_env_order cfg t tmp c e1 e2 :
-  NoDup (map fst e1) -> Permutation e1 e2 -> build_env cfg (with_env t e1) tmp c = build_env cfg (with_env t e2) tmp c.
+Lemma build_env_sb_env_order sx cfg t tmp c e1 e2 :
+  NoDup (map fst e1) -> Permutation e1 e2 -> build_env_sb sx cfg (with_env t e1) tmp c = build_env_sb sx cfg (with_env t e2) tmp c.
 Proof.
-  intros Hnd Hp. unfold build_env, with_user_env, target_env, with_env; cbn [t_env t_pkg t_pkg_dir t_name t_local t_pass_unsafe
+  intros Hnd Hp. unfold build_env_sb, with_user_env, target_env, with_env; cbn [t_env t_pkg t_pkg_dir t_name t_local t_pass_unsafe
     t_pass_env t_srcs t_outs t_src_list_files t_named_srcs t_named_outs t_tools t_secrets t_named_secrets].
   now rewrite (sort_env_perm_eq e1 e2 Hnd Hp).
 Qed.
 
+Lemma build_env_env_order cfg t tmp c e1 e2 :
+  NoDup (map fst e1) -> Permutation e1 e2 -> build_env cfg (with_env t e1) tmp c = build_env cfg (with_env t e2) tmp c.
+Proof. exact (build_env_sb_env_order no_sbx cfg t tmp c e1 e2). Qed.
+
 Lemma reads_with_env cfg t e : reads cfg (with_env t e) = reads cfg t.
 Proof. reflexivity. Qed.
 
-(* C10_determined *)
-Lemma determined cfg t tmp c1 c2 e1 e2 :
+(* C10_determined, for sandboxed and non-sandboxed targets *)
+Lemma determined_sb sx cfg t tmp c1 c2 e1 e2 :
   NoDup (map fst (t_env t)) -> Permutation e1 (t_env t) -> Permutation e2 (t_env t) -> agree c1 c2 (reads cfg t) ->
-  build_env cfg (with_env t e1) tmp c1 = build_env cfg (with_env t e2) tmp c2.
+  build_env_sb sx cfg (with_env t e1) tmp c1 = build_env_sb sx cfg (with_env t e2) tmp c2.
 Proof.
   intros Hnd P1 P2 Ha.
-  rewrite (build_env_env_order cfg t tmp c1 e1 e2).
-  - apply build_env_agree. now rewrite reads_with_env.
+  rewrite (build_env_sb_env_order sx cfg t tmp c1 e1 e2).
+  - apply build_env_sb_agree. now rewrite reads_with_env.
   - apply (Permutation_NoDup (l := map fst (t_env t))); [|exact Hnd]. apply Permutation_map, Permutation_sym, P1.
   - now rewrite P1, P2.
 Qed.
+
+Lemma determined cfg t tmp c1 c2 e1 e2 :
+  NoDup (map fst (t_env t)) -> Permutation e1 (t_env t) -> Permutation e2 (t_env t) -> agree c1 c2 (reads cfg t) ->
+  build_env cfg (with_env t e1) tmp c1 = build_env cfg (with_env t e2) tmp c2.
+Proof. exact (determined_sb no_sbx cfg t tmp c1 c2 e1 e2). Qed.
 
 (* ------------------------------------------------------------------ unframed name=value runs *)
 Definition kv_stream (g : str -> str) (names : list str) : str := concat (map (fun n => n ++ s "=" ++ g n) names).
